@@ -1,34 +1,18 @@
 (* Source tie, family 76-gotrans-soyjs (soyjs/formatters.go): ES6Identifier and the strings
-   the ES5 / ES6 formatters return, as Model/JsGen.v (through tablegen's formatter tables)
-   and Model/Compile.v (the ES6 import block) use them, against the methods as gotrans
-   translates them from today's source. *)
+   the ES5 / ES6 formatters return, as Model/JsGen.v uses them (through tablegen's formatter
+   tables), against the methods as gotrans translates them from today's source.  (Model/Compile.v's
+   import lines are in SourceTieJsImports.v.) *)
 From Coq Require Import ZArith NArith Bool Lia ZifyBool ZifyN List.
-From Soy Require Import Model.Bytes Generated.Tables Model.JsGen Model.Compile Proofs.SourceTieBase.
+From Soy Require Import Model.Bytes Generated.Tables Model.JsGen Proofs.SourceTieBase.
 Import ListNotations.
 Open Scope N_scope.
 
-(* strings.Replace(s, ".", "__", -1) with a one-byte pattern *)
-Lemma go_replace_byte (c : N) (new s : bstr) (n : nat) :
-  (length s <= n)%nat -> go_replace_from n [c] new s = replace_byte c new s.
-Proof.
-  revert s; induction n as [|n IH]; intros [|x r] H; cbn [length] in H; try lia; try reflexivity.
-  cbn [go_replace_from replace_byte is_prefix length drop].
-  rewrite andb_true_r, (N.eqb_sym c x). rewrite !IH by (cbn [length]; lia).
-  destruct (x =? c); reflexivity.
-Qed.
-
-Lemma replace_byte_es6_ident (s : bstr) : replace_byte 46 [95; 95] s = es6_ident s.
-Proof. induction s as [|c r IH]; cbn [replace_byte es6_ident]; [reflexivity|]. rewrite IH. destruct (c =? 46); reflexivity. Qed.
-
-(* ES6Identifier: Model/Compile.v's version (pattern and replacement from tablegen's c13 constants) ... *)
-Theorem es6_identifier_matches_source (s : bstr) : es6_identifier s = src_soyjs_ES6Identifier s.
-Proof.
-  unfold es6_identifier, src_soyjs_ES6Identifier, go_replace_all. symmetry. apply go_replace_byte. lia.
-Qed.
-
-(* ... and Model/JsGen.v's *)
+(* ES6Identifier as Model/JsGen.v has it *)
 Theorem es6_ident_matches_source (s : bstr) : es6_ident s = src_soyjs_ES6Identifier s.
-Proof. rewrite <- es6_identifier_matches_source. symmetry. apply replace_byte_es6_ident. Qed.
+Proof.
+  unfold src_soyjs_ES6Identifier, go_replace_all. rewrite go_replace_byte by lia.
+  symmetry. induction s as [|c r IH]; cbn [go_replace_char es6_ident]; [reflexivity|]. rewrite IH. destruct (c =? 46); reflexivity.
+Qed.
 
 (* the formatter strings of Model/JsGen.v: fmt_bytes over tablegen's piece lists *)
 Ltac fmt_tie :=
@@ -60,15 +44,3 @@ Theorem es6_directive_matches_source (name : bstr) : fmt_bytes (fmt_directive ES
 Proof. fmt_tie. Qed.
 Theorem es6_function_matches_source (name : bstr) : fmt_bytes (fmt_function ES6) name = src_soyjs_ES6Formatter_Function name.
 Proof. fmt_tie. Qed.
-
-(* the import line of Model/Compile.v's ES6 import block *)
-Theorem es6_import_matches_source (name : bstr) :
-  es6_import name = snd (src_soyjs_ES6Formatter_Call name) /\
-  es6_import name = src_soyjs_ES6Formatter_Directive name /\
-  es6_import name = src_soyjs_ES6Formatter_Function name.
-Proof.
-  unfold es6_import, src_soyjs_ES6Formatter_Call, src_soyjs_ES6Formatter_Directive, src_soyjs_ES6Formatter_Function.
-  cbn [snd]. rewrite es6_identifier_matches_source.
-  cbv [c13_es6_import_a c13_es6_import_b c13_es6_import_c].
-  repeat split; rewrite <- ?app_assoc; reflexivity.
-Qed.
